@@ -394,8 +394,7 @@ Section Format.
   Hypothesis HP : forall x, P x = true -> good_name x = true.
 
   Lemma simple_facts : forall n, simple P n = true ->
-    node_clean n = true /\ named_tree n = true /\ Forall nonvoid (tree_events c n) /\
-    map (dn c) (preorder_nodes 0 n) = map (dn c) (preorder_nodes 0 n).
+    node_clean n = true /\ named_tree n = true /\ Forall nonvoid (tree_events c n).
   Proof.
     induction n as [nm v rp at_ ch sc IH] using anode_ind'. intros Hs.
     destruct (simple_inv P _ Hs) as [x [E [Hp Hch]]]. cbn [an_repeat an_children] in *.
@@ -403,7 +402,7 @@ Section Format.
     destruct (good_name_clean x (HP x Hp)) as [H1 [H2 H3]].
     assert (Hk : forall k, In k ch -> node_clean k = true /\ named_tree k = true /\ Forall nonvoid (tree_events c k)).
     { intros k Hk. rewrite Forall_forall in IH. rewrite forallb_forall in Hch.
-      destruct (IH k Hk (Hch k Hk)) as [A [B [C _]]]. auto. }
+      destruct (IH k Hk (Hch k Hk)) as [A [B C]]. auto. }
     repeat split.
     - cbn [node_clean]. rewrite H1, H2, H3. cbn [oval_nolt forallb andb].
       apply forallb_forall. intros k Hk'. apply (Hk k Hk').
@@ -431,7 +430,7 @@ Section Format.
   Proof.
     intros Hc Hs.
     assert (Hall : forall n, In n forest -> node_clean n = true /\ named_tree n = true /\ Forall nonvoid (tree_events c n)).
-    { intros n Hn. rewrite forallb_forall in Hs. destruct (simple_facts n (Hs n Hn)) as [A [B [C _]]]. auto. }
+    { intros n Hn. rewrite forallb_forall in Hs. destruct (simple_facts n (Hs n Hn)) as [A [B C]]. auto. }
     rewrite (format_events_all c Hc forest) by (apply forallb_forall; intros n Hn; apply (Hall n Hn)).
     rewrite nestT_erase by (apply Forall_flat_map; intros n Hn; apply (Hall n Hn)).
     rewrite (nest_forest c forest) by (apply forallb_forall; intros n Hn; apply (Hall n Hn)).
